@@ -148,8 +148,13 @@ CLAIMED = {
              "scratch cache, reference counts and pending prunes exactly as before (set_delete_missing_atomic); supplying the "
              "reported node makes strict progress and never re-asks for it (get_retry_progress, set_delete_retry_progress); the hash "
              "reported by a failing set/delete is the root's, a hashed subtree at a prefix of the key, or (delete) the sibling needed "
-             "to collapse a branch on that path (set_delete_missing_on_path). Tie: result or every exception field, state after the "
-             "failure, retry loop run to convergence, inside and outside squash_changes.",
+             "to collapse a branch on that path (set_delete_missing_on_path). Raw level: the statement-by-statement transcription of "
+             "_set/_delete over raw nodes and the database, on ANY partial database (whatever is stored under a node's hash is its "
+             "encoding), returns exactly the complete-database result or stops at the FIRST fetch the database cannot answer "
+             "(raw_set_partial, raw_delete_partial), and a reported hash is absent and on the requested path / the normalisation "
+             "sibling (raw_set_missing_on_path, raw_delete_missing_on_path). Tie: result or every exception field, state after the "
+             "failure, retry loop run to convergence, inside and outside squash_changes; the raw-level set/delete, get and traverse "
+             "are run on the same incomplete databases (reported node, consumed nibbles, result).",
         technique="Lean 4 proof (event-order invariant ReadsFirst, executor case analysis) + correspondence check with node removal",
         design_ref="6/C07"),
     "C12": dict(
